@@ -189,6 +189,15 @@ class Origins:
             for k, el in enumerate(target.elts):
                 if val[0] == "tuple" and len(val[1]) == len(target.elts):
                     sub = val[1][k]
+                elif val[0] == "comp" and len(val) > 3 and val[3] in self.comp_nodes and len(self.comp_nodes[val[3]][0].generators) == 1 \
+                        and not self.comp_nodes[val[3]][0].generators[0].ifs and not isinstance(self.comp_nodes[val[3]][0], ast.DictComp):
+                    # k-th item of [f(t) for t in seq] is f(seq[k])
+                    comp, cnid = self.comp_nodes[val[3]]
+                    src = val[1]
+                    if src[0] == "index" and src[2][0] == "expr" and str(src[2][1]).replace(" ", "") in (":", f":{len(target.elts)}", f"0:{len(target.elts)}"):
+                        src = src[1]          # seq[:n] unpacked into n names: its k-th item is seq's
+                    eo = self.of(cnid, comp.elt, 1)
+                    sub = _subst_origin(eo, ("elem", val[1]), ("item", src, k))
                 elif val[0] == "phi" and all(x[0] == "tuple" and len(x[1]) == len(target.elts) for x in val[1]):
                     alts = {x[1][k] for x in val[1]}          # unpacking a choice of tuples: the choice of their k-th items
                     sub = next(iter(alts)) if len(alts) == 1 else ("phi", frozenset(alts))
@@ -202,6 +211,16 @@ class Origins:
                 if r is not None:
                     return r
         return None
+
+
+def _subst_origin(o, old, new):
+    if o == old:
+        return new
+    if isinstance(o, tuple):
+        return tuple(_subst_origin(x, old, new) if isinstance(x, (tuple, frozenset)) else x for x in o)
+    if isinstance(o, frozenset):
+        return frozenset(_subst_origin(x, old, new) for x in o)
+    return o
 
 
 def show(o, depth=0) -> str:
